@@ -11,7 +11,8 @@ EXPLANATION = (
     "decrypt-error path - a client-mode packet; with require_nts set, no time response builder is reachable for a "
     "request without NTS."
 )
-NOT_DECIDED = ["IP-set membership itself (C31)", "rate-limit cache behaviour (C20)"]
+NOT_DECIDED = ["the set semantics of the IP filter's bit trie (C31); its address-family normalisation and tree dispatch are evaluated here too (rule C31-R2), because a deny "
+               "entry that cannot match is an access-policy violation", "rate-limit cache behaviour (C20)"]
 
 SRV = 'ntp_proto::server::Server'
 DENY_T = fact_call(r'IpFilter::is_in$', True, [r'^self\.denyfilter$', r'^client_ip$'])
@@ -143,5 +144,11 @@ def r4(ctx):
               '`ServerResponse::Ignore => unreachable!()` arm is reachable', sample={'arm': arms, 'reachable': [a in seen for a in arms]})
 
 
-RULES = [r1, r2, r3, r4]
-FLOORS = {'C15-R1': 14, 'C15-R2': 7, 'C15-R3': 5, 'C15-R4': 9}
+def r5(ctx):
+    # the deny/allow filters can only enforce the policy if an address of either family reaches the tree its entries live in
+    from rules import C31
+    C31.r2(ctx)
+
+
+RULES = [r1, r2, r3, r4, r5]
+FLOORS = {'C15-R1': 14, 'C15-R2': 7, 'C15-R3': 5, 'C15-R4': 9, 'C31-R2': 6}
